@@ -372,7 +372,16 @@ func c15eval(cas c15case) *Violation {
 		}
 		return nil
 	case "Bridge":
+		if cas.Layer == "L5b-bridge-then-setlevel" {
+			// the bridge is built while the logger has another level; admission must follow the level at the time of the call
+			w.l.SetLevel(slog.Level(cas.OptLevel))
+			slog.VerifRestoreModes(cas.Debug, false)
+		}
 		std := slog.NewLogLogger(w.l, slog.Level(cas.BridgeLv))
+		if cas.Layer == "L5b-bridge-then-setlevel" {
+			w.l.SetLevel(slog.Level(cas.LogLevel))
+			slog.VerifRestoreModes(cas.Debug, false)
+		}
 		var n int
 		var err error
 		pan := catch(func() { err = std.Output(1, msg) })
@@ -428,6 +437,42 @@ func c15eval(cas c15case) *Violation {
 		case "WithGroup(g)":
 			h = h.WithGroup("g")
 		}
+	}
+	if cas.Layer == "L4b-siblings" {
+		// two handlers derived from the SAME parent (which itself is the third link of a chain): neither may disturb the other
+		hA := h.WithAttrs([]logslog.Attr{logslog.String("req", "A")})
+		hB := h.WithAttrs([]logslog.Attr{logslog.String("req", "B")})
+		hC := h.WithGroup("grp").WithAttrs([]logslog.Attr{logslog.String("req", "C")})
+		_ = hC
+		for _, pr := range []struct {
+			h    logslog.Handler
+			want string
+		}{{hA, "A"}, {hB, "B"}, {hA, "A"}} {
+			w.rec.reset()
+			rec := logslog.NewRecord(tsZone, logslog.LevelError, msg, 0)
+			rec.AddAttrs(logslog.Int("own", 5))
+			if pan := catch(func() { _ = pr.h.Handle(ctx, rec) }); pan != "" {
+				return mk("call-returns", firstLine(pan))
+			}
+			if len(w.rec.events) != 1 {
+				return mk("emitted-once", fmt.Sprintf("%d records", len(w.rec.events)))
+			}
+			r, e := c15decode(w.rec.events[0].Payload, cas.Format)
+			if e != "" {
+				return mk("decodable", e)
+			}
+			got := fmt.Sprint(r.attrs["req"])
+			if got != pr.want && got != strconv.Quote(pr.want) {
+				return mk("sibling-handlers-independent", fmt.Sprintf("handler derived with req=%s printed req=%v: %.250q", pr.want, r.attrs["req"], w.rec.events[0].Payload))
+			}
+			for _, k := range wantAttrs {
+				if _, ok := r.attrs[k]; !ok {
+					return mk("derived-attrs", fmt.Sprintf("attribute %q of the common parent is missing: %.250q", k, w.rec.events[0].Payload))
+				}
+			}
+		}
+		c15last = w.rec.events[0].Payload
+		return nil
 	}
 	var attrs []logslog.Attr
 	if at != nil {
@@ -591,6 +636,20 @@ func c15cases(thorough bool, emit func(c15case)) {
 						emit(c15case{Layer: "L4-chains", Format: f, LogLevel: int(L), SlogLvl: lv, Chain: ch, Via: via})
 					}
 				}
+			}
+		}
+	}
+	// L4b: sibling handlers derived from one parent
+	for _, ch := range chains {
+		for _, f := range formats {
+			emit(c15case{Layer: "L4b-siblings", Format: f, LogLevel: int(slog.TraceLevel), SlogLvl: 8, Chain: ch, Via: "Handle"})
+		}
+	}
+	// L5b: the bridge is built first, the logger level changes afterwards (OptLevel = level at construction)
+	for _, L0 := range []slog.Level{slog.OffLevel, slog.ErrorLevel, slog.WarnLevel, slog.InfoLevel, slog.TraceLevel, slog.AlwaysLevel} {
+		for _, L1 := range []slog.Level{slog.OffLevel, slog.ErrorLevel, slog.WarnLevel, slog.InfoLevel, slog.TraceLevel, slog.AlwaysLevel} {
+			for _, b := range []slog.Level{slog.ErrorLevel, slog.WarnLevel, slog.InfoLevel, slog.DebugLevel, slog.AlwaysLevel, slog.OKLevel} {
+				emit(c15case{Layer: "L5b-bridge-then-setlevel", Format: "json", OptLevel: int(L0), LogLevel: int(L1), BridgeLv: int(b), MsgQ: strconv.Quote("a\n"), Via: "Bridge"})
 			}
 		}
 	}
